@@ -26,7 +26,8 @@ from MIP.geom.forcad import transform_frame
 from MIP.geom.transforms import get_transforms
 
 from ..Surface.SurfaceMCNP import SurfaceMCNP
-from .TransformationQuad import transformation_quad
+from .TransformationQuad import (transformation_quad,
+                                 special_quadric_to_general)
 from .TransformationError import TransformationError
 
 from ..Surface.ESurfaceTypeMCNP import ESurfaceTypeMCNP as MS
@@ -395,13 +396,20 @@ def transformation(trpl, surface):
     '''
     if not trpl:
         return surface
-    if surface.type_surface in (MS.SQ, MS.GQ):
+    type_surface = surface.type_surface
+    if type_surface in (MS.SQ, MS.GQ):
         frame = tuple(surface.param_surface)
-        params = transformation_quad(surface.compl_param, trpl)
+        params = surface.compl_param
+        if type_surface == MS.SQ:
+            # the SQ form cannot represent a rotated quadric: transform the
+            # equivalent general quadric
+            params = special_quadric_to_general(params)
+            type_surface = MS.GQ
+        params = transformation_quad(params, trpl)
     else:
         frame = transform_frame(surface.param_surface, trpl)
         params = list(surface.compl_param)
-    return SurfaceMCNP(surface.boundary_cond, surface.type_surface, frame,
+    return SurfaceMCNP(surface.boundary_cond, type_surface, frame,
                        params, surface.idorigin)
 
 
